@@ -30,10 +30,10 @@ type Created struct {
 type NodeInfo struct {
 	N       *chaingen.Node
 	Index   types.ChainIndex
-	L       *chaingen.Ledger               // unspent elements, proofs current at this node
-	All     map[string]types.StateElement  // every accumulator leaf we know (spent ones too), proofs current
-	Created []Created                      // Created diffs of the block, in diff order
-	Num     uint64                         // Elements.NumLeaves after the block
+	L       *chaingen.Ledger              // unspent elements, proofs current at this node
+	All     map[string]types.StateElement // every accumulator leaf we know (spent ones too), proofs current
+	Created []Created                     // Created diffs of the block, in diff order
+	Num     uint64                        // Elements.NumLeaves after the block
 }
 
 // A World is a tree with lazily computed node facts and element registries.
